@@ -107,10 +107,10 @@ def rangeSize : EV.Val → Nat
 
 /-- the text of the range object in the value of a `range` attribute (`processRange`: quotes stripped, `extractRange`) -/
 def rangeObjText (av : String) : String :=
-  (extractRange (RN.trimSuffixS (RN.trimPrefixS (RN.trimSuffixS (RN.trimPrefixS av "'") "'") "\"") "\"")).2.2
+  (extractRange (stripOwnQuotes av)).2.2
 
 theorem rangeObjText_eq (av : String) : rangeObjText av =
-    (extractRange (RN.trimSuffixS (RN.trimPrefixS (RN.trimSuffixS (RN.trimPrefixS av "'") "'") "\"") "\"")).2.2 := rfl
+    (extractRange (stripOwnQuotes av)).2.2 := rfl
 
 /-- the number of child scopes of a range expansion is the size of the evaluated range object (elements of a slice or
     array, bytes of a string, entries of a map) -/
@@ -123,7 +123,7 @@ theorem rangeItems_length (cx : Ctx) (a : CAttr) (sc : List EV.Val) (its : List 
   · cases h
   · rename_i av hav
     simp only at h
-    generalize hO : (extractRange (RN.trimSuffixS (RN.trimPrefixS (RN.trimSuffixS (RN.trimPrefixS av "'") "'") "\"") "\"")) = tr at h
+    generalize hO : (extractRange (stripOwnQuotes av)) = tr at h
     split at h
     · cases h
     · cases h
